@@ -20,6 +20,7 @@ from .. import core, buildimpl
 from .. import sysutil as S
 from .. import pairutil as P
 from .. import runnerutil as R
+from .. import alignutil as U
 
 COMP = ["", ".gz", ".bz2", ".xz", ".zst"]
 FASTA_EXT = [".fasta", ".fa", ".fna", ".csfasta", ".csfa"]
@@ -439,6 +440,55 @@ def part_matrix(ctx, d, dist):
             ctx.sample({"argv": ref["argv"][:24], "records": len(recs), "paired": paired})
 
 
+def part_long_records(ctx, d, dist):
+    """interleaved and two-file FASTA / FASTQ with records so long that two of them do not fit into one --buffer-size: several cores give
+    the records of the one-core run (the chunked reader then hands out chunks of a single record)"""
+    rng = ctx.rng
+    for it in range(ctx.size(3, 20)):
+        fasta = it == 0 or rng.random() < 0.7
+        L = rng.choice([500, 600, 700])
+        pairs = [("pair%d" % i, U.rand_seq(rng, L + rng.randint(0, 40), "ACGT"), U.rand_seq(rng, L + rng.randint(0, 40), "ACGT")) for i in range(rng.choice([4, 6, 9]))]
+        ext = "fasta" if fasta else "fastq"
+
+        def rec(n, sq):
+            return (">%s\n%s\n" % (n, sq)) if fasta else ("@%s\n%s\n+\n%s\n" % (n, sq, "I" * len(sq)))
+
+        for f in os.listdir(d):
+            if os.path.isfile(os.path.join(d, f)):
+                os.remove(os.path.join(d, f))
+        inter = it == 0 or rng.random() < 0.7
+        if inter:
+            with open(os.path.join(d, "in.inter." + ext), "w") as f:
+                f.write("".join(rec(n + "/1", a) + rec(n + "/2", b) for n, a, b in pairs))
+            argv = ["--interleaved", "-o", "out.inter." + ext, "in.inter." + ext]
+        else:
+            with open(os.path.join(d, "in.1." + ext), "w") as f:
+                f.write("".join(rec(n + "/1", a) for n, a, b in pairs))
+            with open(os.path.join(d, "in.2." + ext), "w") as f:
+                f.write("".join(rec(n + "/2", b) for n, a, b in pairs))
+            argv = ["-o", "out.1." + ext, "-p", "out.2." + ext, "in.1." + ext, "in.2." + ext]
+        bs = (L * 2 - rng.randint(100, 300)) if fasta else (L * 4 - rng.randint(100, 300))   # one record fits, two do not; a FASTQ pair must fit
+        if not fasta:
+            bs = max(bs, 2 * (2 * (L + 40) + 20) + 50)
+        outs = {}
+        for cores in (1, rng.choice([2, 3])):
+            for f in os.listdir(d):
+                if f.startswith("out."):
+                    os.remove(os.path.join(d, f))
+            res = R.run_cli(argv, d, cores, buffer_size=(bs if cores > 1 else None), trace=False)
+            data = {f: open(os.path.join(d, f)).read() for f in sorted(os.listdir(d)) if f.startswith("out.")}
+            outs[cores] = (res["exit"], data, res["stderr"].strip()[-200:])
+        dist["long records"] = dist.get("long records", 0) + 1
+        ctx.count(("long", fasta, inter, L, len(pairs), bs), True)
+        (e1, d1, _), (en, dn, errn) = outs[1], [v for k, v in outs.items() if k != 1][0]
+        if e1 == 0 and (en != 0 or dn != d1):
+            if en != 0 and "does not fit into buffer" in errn:
+                continue
+            ctx.violation("long records: several cores differ from one core [%s %s]" % ("fasta" if fasta else "fastq", "interleaved" if inter else "two files"),
+                          {"kind": "long", "argv": argv, "buffer_size": bs, "fasta": fasta, "interleaved": inter, "pairs": [list(p_) for p_ in pairs],
+                           "what": ("exit %r: %s" % (en, errn)) if en != 0 else "records differ"})
+
+
 def check(ctx):
     ctx.coq()
     ctx.model()
@@ -452,7 +502,7 @@ def check(ctx):
         if os.path.exists(cp):
             for doc in json.load(open(cp)):
                 replay_one(ctx, doc, d)
-        for part in (part_format, part_matrix):
+        for part in (part_format, part_matrix, part_long_records):
             try:
                 part(ctx, d, dist)
             except Exception as e:  # noqa -- a crash of one part is a broken correspondence; the other part still searches
@@ -506,6 +556,25 @@ def replay(doc):
             got = impl_writer_formats(d, [r["name"]])[0]
             print("C19 replay: name %r: implementation %r, documented %r" % (r["name"], got, r["documented"]))
             return 1 if got[1] != r["documented"] else 0
+        if r.get("kind") == "long":
+            fasta = r["fasta"]
+            ext = "fasta" if fasta else "fastq"
+            rec = (lambda n, sq: ">%s\n%s\n" % (n, sq)) if fasta else (lambda n, sq: "@%s\n%s\n+\n%s\n" % (n, sq, "I" * len(sq)))
+            if r["interleaved"]:
+                open(os.path.join(d, "in.inter." + ext), "w").write("".join(rec(n + "/1", a) + rec(n + "/2", b) for n, a, b in r["pairs"]))
+            else:
+                open(os.path.join(d, "in.1." + ext), "w").write("".join(rec(n + "/1", a) for n, a, b in r["pairs"]))
+                open(os.path.join(d, "in.2." + ext), "w").write("".join(rec(n + "/2", b) for n, a, b in r["pairs"]))
+            outs = []
+            for cores in (1, 2):
+                for f in os.listdir(d):
+                    if f.startswith("out."):
+                        os.remove(os.path.join(d, f))
+                res = R.run_cli(r["argv"], d, cores, buffer_size=(r["buffer_size"] if cores > 1 else None), trace=False)
+                outs.append((res["exit"], {f: open(os.path.join(d, f)).read() for f in sorted(os.listdir(d)) if f.startswith("out.")}))
+            same = outs[0] == outs[1]
+            print("C19 replay (long records): one core exit %r, two cores exit %r, %s" % (outs[0][0], outs[1][0], "same records" if same else "DIFFERENT"))
+            return 0 if same else 1
         case = case_from_doc(r)
         ref = run_variant(case, d, {"gt_names": True} if r["variant"].get("gt_names") else {})
         res = run_variant(case, d, r["variant"])
